@@ -191,13 +191,16 @@ def _candidates(x: Any) -> Iterable[Any]:
     """Smaller variants of a JSON value, most aggressive first."""
     if isinstance(x, list):
         n = len(x)
+        # ["op", arg...] encodings: the leading string is a discriminator and stays
+        tagged = n >= 2 and isinstance(x[0], str)
         if n:
-            yield []
-            if n > 3:
-                half = n // 2
-                yield x[:half]
-                yield x[half:]
-            for i in range(n):
+            if not tagged:
+                yield []
+                if n > 3:
+                    half = n // 2
+                    yield x[:half]
+                    yield x[half:]
+            for i in range(1 if tagged else 0, n):
                 yield x[:i] + x[i + 1 :]
             # hoist: replace an element by the contents of one of its list fields
             for i, el in enumerate(x):
@@ -206,6 +209,8 @@ def _candidates(x: Any) -> Iterable[Any]:
                         if isinstance(v, list) and v and all(isinstance(e, dict) for e in v):
                             yield x[:i] + v + x[i + 1 :]
             for i, el in enumerate(x):
+                if tagged and i == 0:
+                    continue
                 for c in _candidates(el):
                     yield x[:i] + [c] + x[i + 1 :]
     elif isinstance(x, dict):
